@@ -167,14 +167,17 @@ UNITS = {
                                                "C13_legal_from_matrix_source"]},
     },
     "capacity": {
-        "enabled": False,                      # switched on once every proof file of the unit is complete
         "functions": translate_minipy.CAPACITY_FUNCS,
         "generate": lambda repo, d: translate_minipy.generate_capacity(repo, os.path.join(d, "CapacityGen.v")),
         "refuse": translate_minipy.Refuse,
         "generated": "CapacityGen.v",
         "stages": [["CapacityRepr.v"], ["CapacityGenProofs.v"], ["CapacityKnotGenProofs.v"]],
-        "deps": ["Py.v", "Capacity.v", "Thresholds.v", "MiniPyC.v", "MiniPyCEnc.v", "Proofs/MiniPyCLemmas.v"],
-        "theorems": {},
+        "deps": ["Py.v", "Capacity.v", "Thresholds.v", "MiniPyC.v", "MiniPyCEnc.v", "Proofs/MiniPyCLemmas.v", "Kmer.v", "Graph.v", "Spec.v",
+                 "GraphSpec.v", "CapacitySpec.v", "Proofs/CapacityProofs.v", "Proofs/CapacityFloatProofs.v", "Proofs/CapacityTermProofs.v"],
+        "float_axioms": True,
+        "theorems": {"CapacityGenProofs.v": ["approximate_capacity_gen"],
+                     "CapacityKnotGenProofs.v": ["py8_approximate_capacity", "C17_returns_source", "C17_arcless_source",
+                                                 "C17_le_four_source", "C17_regular_source"]},
     },
     "biofilter": {
         "functions": translate_minipy.BIOFILTER_FUNCS,
@@ -303,16 +306,10 @@ def run_unit(name, repo, use_cache=True, keep=None):
                     out["failed_file"] = f
                     return out
                 closed += log.count("Closed under the global context")
-                listed = []
-                for block in re.findall(r"Axioms:\n((?:.+\n?)+?)(?:\n|\Z)", log):
-                    for line in block.split("\n"):
-                        m = re.match(r"^([A-Za-z_][A-Za-z0-9_.']*)\s*:", line)
-                        if m and m.group(1) != "Axioms":
-                            listed.append(m.group(1))
+                import axioms as ax
+                listed = ax.parse_print_assumptions(log)
                 if u.get("float_axioms"):
-                    import axioms as ax
-                    pats = [re.compile(x) for x in ax.FLOAT_PATTERNS]
-                    bad = sorted(set(a for a in listed if a not in ax.FLOAT_ALLOWED and not any(x.fullmatch(a) for x in pats)))
+                    bad = ax.unexpected(listed, ax.FLOAT_ALLOWED, ax.FLOAT_PATTERNS)
                     out["axioms_listed"] = sorted(set(listed))
                 else:
                     # every Print Assumptions of these files must be closed: no axiom at all
